@@ -21,6 +21,24 @@ pub struct DocCase {
     pub name_char: Option<(u32, bool)>,
 }
 
+/// documents with one very long token (indexed through DocCase::name_char values from LONG_BASE, beyond Unicode)
+pub const LONG_BASE: u32 = 0x20_0000;
+pub const LONG_KINDS: usize = 6;
+/// (text, intended reading) of long-token document `idx`
+pub fn long_doc(idx: usize) -> (String, Vec<Vec<(String, String)>>) {
+    let lim = crate::props::c01::WIDTH_LIMITS;
+    let (kind, n) = (idx / lim.len(), lim[idx % lim.len()]);
+    let s = |x: &str| x.to_string();
+    match kind {
+        0 => (format!("A: {}\nB: c\n", "v".repeat(n)), vec![vec![(s("A"), "v".repeat(n)), (s("B"), s("c"))]]),
+        1 => (format!("A: b\n {}\nB: c\n", "w".repeat(n)), vec![vec![(s("A"), format!("b\n{}", "w".repeat(n))), (s("B"), s("c"))]]),
+        2 => (format!("{}: v\nB: c\n", "K".repeat(n)), vec![vec![("K".repeat(n), s("v")), (s("B"), s("c"))]]),
+        3 => (format!("A: {}\nB: c\n", "\u{e9}".repeat(n)), vec![vec![(s("A"), "\u{e9}".repeat(n)), (s("B"), s("c"))]]),
+        4 => (format!("#{}\nA: b\n\nB: c\n", "c".repeat(n)), vec![vec![(s("A"), s("b"))], vec![(s("B"), s("c"))]]),
+        _ => (format!("A:{}b\n{}c\nB: c\n", " ".repeat(n), " ".repeat(n)), vec![vec![(s("A"), s("b\nc")), (s("B"), s("c"))]]),
+    }
+}
+
 /// texts without any paragraph (indexed through DocCase::name_char code points below 16)
 pub const ZERO_PARA: [&str; 5] = ["", "\n", "# c\n", "\n\n# c\n\n", "# c"];
 pub const JUNK: [&str; 4] = ["junk", "junk more", "-x: y", "é: v"];
@@ -150,7 +168,7 @@ impl Prop for C03 {
         "exploration"
     }
     fn rule(&self, _t: Tier) -> String {
-        "documents are choice vectors over the layout slots of a PxF skeleton (P,F in 1..3): every vector with at most k deviations from the simplest layout is rendered (text + intended reading by construction) and read with the strict reader; vectors whose deviation has no effect on the text are skipped, so every evaluated document is distinct; rejection clause: every k<=1 document x every line position x (4 inserted junk lines - at the end also without a final newline -, the colon of a field line deleted, the indentation of a continuation line removed); field-name alphabet clause: every printable ASCII character except ':' inside a field name, and every one except '-' and '#' as its first character; non-trivial = document with at least one deviation".into()
+        "documents are choice vectors over the layout slots of a PxF skeleton (P,F in 1..3): every vector with at most k deviations from the simplest layout is rendered (text + intended reading by construction) and read with the strict reader; vectors whose deviation has no effect on the text are skipped, so every evaluated document is distinct; rejection clause: every k<=1 document x every line position x (4 inserted junk lines - at the end also without a final newline -, the colon of a field line deleted, the indentation of a continuation line removed); long-token clause: a value line, a continuation line, a field name, a value of two-byte characters, a comment line and the blanks after a colon / in front of a continuation line stretched to 255 / 256 / 257 / 65535 / 65536 / 65537 characters must read as intended; field-name alphabet clause: every printable ASCII character except ':' inside a field name, and every one except '-' and '#' as its first character; non-trivial = document with at least one deviation".into()
     }
     fn bounds(&self, t: Tier) -> Value {
         let mut per = vec![];
@@ -175,6 +193,10 @@ impl Prop for C03 {
             let sk = Skel { paras: 1, fields: 1 };
             for i in 0..ZERO_PARA.len() {
                 f(&DocCase { skel: sk, v: vec![], junk: None, name_char: Some((i as u32, false)) });
+            }
+            // one token stretched to the limits of the narrow integer types, with its intended reading
+            for idx in 0..(LONG_KINDS * crate::props::c01::WIDTH_LIMITS.len()) {
+                f(&DocCase { skel: sk, v: vec![], junk: None, name_char: Some((LONG_BASE + idx as u32, false)) });
             }
             for cp in 33u32..127 {
                 let ch = char::from_u32(cp).unwrap();
@@ -236,6 +258,25 @@ impl Prop for C03 {
                         vec![]
                     }
                     Ok((d, p)) => vec![viol("no-paragraph", format!("text {:?}: Deb822::from_str reports {:?} paragraphs, Paragraph::from_str {:?} (expected 0 paragraphs and an error)", text, d.map_err(|e| e.to_string()), p.map_err(|e| e.to_string())))],
+                    Err(p) => vec![viol("panic", panic_detail(&p))],
+                };
+            }
+        }
+        if let Some((cp, _)) = c.name_char {
+            if cp >= LONG_BASE {
+                let idx = (cp - LONG_BASE) as usize;
+                if idx >= LONG_KINDS * crate::props::c01::WIDTH_LIMITS.len() {
+                    return vec![];
+                }
+                let (text, want) = long_doc(idx);
+                st.nontrivial += 1;
+                return match guard(budget_for(text.len()), || Deb822::from_str(&text).map(|d| read_items(&d))) {
+                    Ok(Ok(items)) if items == want => {
+                        st.outcome("long-token-ok");
+                        vec![]
+                    }
+                    Ok(Ok(items)) => vec![viol("reads-model", format!("text {}: got {}", crate::strings::brief(&text), crate::strings::brief(&format!("{:?}", items))))],
+                    Ok(Err(e)) => vec![viol("strict-accepts", format!("text {} rejected: {}", crate::strings::brief(&text), e.to_string().replace('\n', "; ")))],
                     Err(p) => vec![viol("panic", panic_detail(&p))],
                 };
             }
